@@ -75,6 +75,14 @@ def unit(arg_):
                             break
                     problems = semrun.library_model_check(tab, b)
                     if problems:
+                        nb = [p_ for p_ in problems if semrun.NB_MARK in p_]
+                        if nb and len(nb) >= len([p_ for p_ in problems if p_.startswith('node ')]):
+                            # every ill-valued node is evaluated through an (N,B) cell of the FDE-family
+                            # tables: the recorded C07 finding showing up in the countermodel
+                            out['bad'].append(dict(argstr=argstr, seed=seed, cfg=cfg, kind='known-table:NB',
+                                                   rules=[], why='the library\'s model of an open branch: ' + nb[0],
+                                                   identity=has_identity))
+                            break
                         out['bad'].append(dict(argstr=argstr, seed=seed, cfg=cfg, kind='model', rules=rules,
                                                why='the library\'s model of an open branch: ' + problems[0],
                                                identity=has_identity))
@@ -140,6 +148,8 @@ def run(ctx):
             if 'inexact-rule' not in key and b['kind'] == 'model':
                 what = re.sub(r'\(designated=.*', '', re.sub(r'node .*? \(', 'node (', b['why']))[:60]
                 key = f'C02|{r["logic"]}|{b["argstr"]}|model'
+            if b['kind'] == 'known-table:NB':
+                key = f'C02|{r["logic"]}|known-table:NB'
             rep.violation(key, f'{r["logic"]} {b["argstr"]} seed={b["seed"]} {b["cfg"]}: {b["why"]}',
                           dict(logic=r['logic'], argstr=b['argstr'], seed=b['seed'], cfg=b['cfg'],
                                kind=b['kind']))
